@@ -800,6 +800,11 @@ def run_cases(cases, ctx):
         obs = _parallel_obs(cases)
         shim = _Shim(mod, {id(c): o for c, o in zip(cases, obs)})
         res = lib.standard_run(shim, cases, ctx)
+        # describe and classify each violation by a fresh run of its (minimised) case
+        for v in res['violations'][:20]:
+            o2 = _run_one(v['case'])
+            if o2.get('calls') is not None:
+                v['summary'], v['signature'], v['what'] = describe(v['case'], o2), signature(v['case'], o2), what(v['case'], o2)
     finally:
         _close_pools()
     return res
